@@ -165,9 +165,14 @@ def run_case(case):
 def configs(tier):
     out = []
 
-    def add(d, lmax, version, nref, D, s, automatic=False, single=False):
-        out.append(({"d": d, "lmin": 1, "lmax": lmax, "version": version, "nref": nref, "automatic": automatic,
-                     "single_dim": single, "s": s, "special": d < 3 or tier != "quick"}, D))
+    def add(d, lmax, version, nref, D, s, automatic=False, single=False, towards=None, lmin=1):
+        c = {"d": d, "lmin": lmin, "lmax": lmax, "version": version, "nref": nref, "automatic": automatic,
+             "single_dim": single, "s": s, "special": d < 3 or tier != "quick"}
+        if towards:
+            c["towards"] = towards
+        out.append((c, D))
+    T2 = [[0.3, 0.3], [0.8, 0.8]]
+    T3 = [[0.3, 0.3, 0.3], [0.8, 0.8, 0.8]]
     if tier == "quick":
         for version in (0, 1, 2):
             add(2, 2, version, 1, 3, 1)
@@ -178,7 +183,18 @@ def configs(tier):
         add(2, 2, 0, 1, 2, 1, automatic=True)
         add(2, 2, 0, 1, 2, 1, single=True)
         add(2, 2, 0, 1, 2, 1, automatic=True, single=True)
+        # graded refinement towards two points: few events per state, so coarsening values >= 2 and several scheme extensions
+        for version in (0, 1, 2):
+            add(2, 2, version, 1, 5, 1, towards=T2)
+            add(2, 2, version, 2, 5, 1, towards=T2)
+        add(3, 2, 2, 1, 3, 1, towards=T3)
     else:
+        for version in (0, 1, 2):
+            for nref in (1, 2, 3):
+                add(2, 2, version, nref, 7, 1, towards=T2 + [[0.8, 0.3]])
+                add(2, 3, version, nref, 5, 1, towards=T2)
+            add(3, 2, version, 1, 5, 1, towards=T3)
+            add(2, 2, version, 1, 4, 1)
         for version in (0, 1, 2):
             for nref in (1, 2, 3):
                 add(2, 2, version, nref, 3, 2)
@@ -200,8 +216,9 @@ def main(ctx):
                                       "single_dim": False, "s": 1},
                            "history": [[[[0.0, 0.0], [0.5, 0.5], None]], [[[0.0, 0.0], [0.25, 0.25], None]], [[[0.0, 0.0], [0.25, 0.25], None]]]})
     for config, D in configs(ctx.tier):
-        tag = "d%d_lmax%d_v%d_nref%d_auto%d_single%d_D%d_s%d" % (config["d"], config["lmax"], config["version"], config["nref"],
-                                                              config["automatic"], config["single_dim"], D, config["s"])
+        tag = "d%d_l%d%d_v%d_nref%d_auto%d_single%d_D%d_s%d%s" % (config["d"], config["lmin"], config["lmax"], config["version"], config["nref"],
+                                                                config["automatic"], config["single_dim"], D, config["s"],
+                                                                "_towards" if config.get("towards") else "")
         ctx.bounds[tag] = core.bfs(ctx, config, D, tag=tag)
     return ctx.finish(
         rule="state = sorted leaf areas (start,end,coarsening,splits so far) + lmax reached by a history of decisions: which leaf "
